@@ -812,6 +812,16 @@ func shortHash(b []byte) string {
 
 func lastLines(s string, n int) string {
 	ls := strings.Split(strings.TrimSpace(s), "\n")
+	// prefer the head of a Go panic / fatal error over the tail of its stack
+	for i, l := range ls {
+		if strings.HasPrefix(l, "panic:") || strings.HasPrefix(l, "fatal error:") {
+			end := i + n + 4
+			if end > len(ls) {
+				end = len(ls)
+			}
+			return strings.Join(ls[i:end], " | ")
+		}
+	}
 	if len(ls) > n {
 		ls = ls[len(ls)-n:]
 	}
